@@ -264,6 +264,12 @@ impl WitnessSpec {
                 }
             }
         }
+        // uniform promise vectors: all absent, or all present and zero
+        match rng.below(16) {
+            0 => promises.iter_mut().for_each(|p| *p = None),
+            1 => promises.iter_mut().for_each(|p| *p = Some(0)),
+            _ => {},
+        }
         // boundary at 64 bits: promises of one aggregate that add up to exactly 2^64
         if cfg.bits == 64 && cfg.m >= 2 && rng.chance(1, 4) {
             let top = 1u64 << 63;
